@@ -19,7 +19,12 @@ package bcrypt
 //@ func New(l loggerProvider, s getSecret) (res *Authenticator)
 //@   ensures[C14] res != nil && res.loggerProvider == l && res.getSecret == s
 
+// C09: the per-user authenticator is a new object that shares nothing mutable with its factory
+// or with the authenticators of other users: only the logger and the keychain accessor (both
+// used read-only) are handed on.
 //@ func (a Authenticator) New(username string, options map[string]string) (h tq.Handler, err error)
+//@   props C09
 //@   requires a.loggerProvider != nil && a.getSecret != nil
+//@   ensures[C09] err == nil ==> ownState(h, "loggerProvider", "getSecret")
 //@   ensures[C14] err == nil ==> (h != nil && typeOf(h) == *Authenticator && h.(*Authenticator).loggerProvider != nil)
 //@   ensures[C14] err == nil ==> (len(h.(*Authenticator).hash) == 0 ==> h.(*Authenticator).getSecret != nil)
